@@ -213,7 +213,9 @@ func runC05(c *core.Ctx) {
 		"restarts only with the file store; the memory-store run explores cuts only")
 	scratch, cleanup := core.Scratch("c05")
 	defer cleanup()
-	for _, budget := range budgets {
+	var e2eItems []e2eItem
+	var e2eMuLocal sync.Mutex
+	for bi, budget := range budgets {
 		for _, file := range []bool{false, true} {
 			type node struct{ path []uint8 }
 			seen := sync.Map{}
@@ -271,6 +273,12 @@ func runC05(c *core.Ctx) {
 								}
 								atomic.AddInt64(&states, 1)
 								local = append(local, node{path})
+								if budget.Timers == 0 && (!quick || bi != 1) {
+									// one representative path per model state goes to the real engines
+									e2eMuLocal.Lock()
+									e2eItems = append(e2eItems, e2eItem{File: file, Path: path, Budget: budget})
+									e2eMuLocal.Unlock()
+								}
 								// convergence probe from this state
 								atomic.AddInt64(&probes, 1)
 								if r, w := c05Converge(p); r != "" {
@@ -312,4 +320,5 @@ func runC05(c *core.Ctx) {
 			c.Sample(map[string]any{"store": store, "budget": budget, "states": states, "transitions": transitions, "depth_completed": depthDone})
 		}
 	}
+	runC05E2E(c, e2eItems)
 }
